@@ -1,6 +1,8 @@
 # SPDX-FileCopyrightText: 2022 Rot127 <unisono@quyllur.org>
 # SPDX-License-Identifier: LGPL-3.0-only
 
+from lark import Tree
+
 from rzilcompiler.Transformer.Effects.Effect import Effect, EffectType
 from rzilcompiler.Transformer.Effects.Empty import Empty
 
@@ -14,6 +16,9 @@ class Sequence(Effect):
                 continue
             if isinstance(e, Effect):
                 eff.append(e)
+            elif isinstance(e, Tree):
+                # A grammar rule without handler (label, comma expression...) reached a statement list.
+                raise NotImplementedError(f"'{e.data}' is not supported.")
             else:
                 self.effect_ops.append(e)
         if len(eff) == 0:
